@@ -329,10 +329,9 @@ class LabelBase(INET):
         return INET.__eq__(self, other)
 
     def __hash__(self) -> int:
-        # _packed includes everything; use _has_addpath as discriminator
-        if self._has_addpath:
-            return hash(self._packed)
-        return hash(b'disabled' + self._packed)
+        # equality goes through index(), which leaves the labels out: two routes which compare
+        # equal must hash alike, so the hash is the one of the index and not of the wire bytes
+        return hash(self.index())
 
     def __copy__(self) -> Self:
         new = self.__class__.__new__(self.__class__)
